@@ -37,6 +37,38 @@ def check(run):
         for p in probs:
             run.violation("modify-metadata loop: " + p.split(" {")[0].split(" [")[0][:120], {"kind": "modify", "case": case, "problem": p})
     run.extra["modify_scripts_replayed"] = len(cases)
+    # root pairs as they exist in memory right after being drafted (the offered root made from the trusted one by copy-and-edit, so that
+    # equal parts are shared objects) and the same pair after both were written to files and loaded back: the verdict is the same
+    import copy
+    from .. import gamma, lib, root_engine, verify_engine
+    from ..tlc import decode_case_line
+    from ..twins import twin_canon
+    auth, common = lib.cct("authentication"), lib.cct("common")
+    rx = run.tlc("Root", "Root_emit_quick.cfg", raw_cases=True, expect_cases=True, timeout=3000)
+    npairs = 0
+    tp, op = os.path.join(wd, "persist-trusted.json"), os.path.join(wd, "persist-offered.json")
+    for batch in verify_engine.batches(rx.case_file, every=8 if quick else 2):
+        for line in batch[::2]:
+            case = decode_case_line(line)
+            r = verify_engine._rng(run.seed + 99, line)
+            trusted, new = root_engine.concretise(case, r, run.seed)
+            if not (isinstance(new, dict) and isinstance(new.get("signed"), dict) and isinstance(trusted, dict)):
+                continue
+            try:
+                new = dict(new, signed=gamma.share_equal_parts(copy.deepcopy(new["signed"]), trusted))
+                twin_canon([trusted, new])
+                common.write_metadata_to_file(trusted, tp)
+                common.write_metadata_to_file(new, op)
+            except (TypeError, ValueError, RecursionError):
+                continue
+            o_mem = lib.call(auth.verify_root, trusted, new)[0]
+            o_disk = lib.call(auth.verify_root, common.load_metadata_from_file(tp), common.load_metadata_from_file(op))[0]
+            run.evaluations += 2
+            npairs += 1
+            if o_mem != o_disk:
+                run.violation(f"verify_root: the verdict on a drafted pair changes after both documents were written and loaded back ({o_mem} -> {o_disk})",
+                              {"kind": "persist_pair", "case": case, "in_memory": o_mem, "after_write_load": o_disk})
+    run.extra["root_pairs_before_and_after_persisting"] = npairs
     run.exhaustive = True
 
 
